@@ -249,6 +249,8 @@ class DFA(fa.FA):
         words are ordered first by length and then by the order of the input
         symbol set.
         """
+        if self.isempty():
+            return
         i = self.minimum_word_length()
         limit = self.maximum_word_length()
         while limit is None or i <= limit:
